@@ -9,6 +9,7 @@ import PhysisModel.Proofs.C18Mdl
 import PhysisModel.Proofs.C18Stm
 import PhysisModel.Proofs.C18Avfx
 import PhysisModel.Proofs.C18Lgb
+import PhysisModel.Proofs.C18Havok
 /-!
 # C18 — damaged game data is rejected without crashing
 
@@ -359,5 +360,62 @@ example : (C18Lgb.fromExisting [76, 71, 66, 49, 45, 0, 0, 0, 1, 0, 0, 0, 76, 71,
     16, 0, 0, 0, 16, 0, 0, 0, 0, 0, 0, 0, 80, 108, 97, 110, 76, 105, 118, 101, 0]).isOk = true := by decide
 example : (C18Lgb.fromExisting [76, 71, 66, 49, 45, 0, 0, 0, 1, 0, 0, 0, 76, 71, 80, 49, 24, 0, 0, 0, 5, 1, 0, 0,
     16, 0, 0, 0, 16, 0, 0, 0, 0, 0, 0, 0, 80, 108, 97, 110, 76, 105, 118, 101]).isOk = false := by decide
+
+/-! ## part `havok`: skeletons (SKLB container + Havok binary tag-file reader, `fixes/C18-70..78`) -/
+
+/-- the valid two-bone skeleton file of `lib/c18b_havok_witness.py` (`valid(2)`) -/
+def sklbTwoBones : Bytes :=
+  [98, 108, 107, 115, 48, 48, 51, 49, 36, 0, 0, 0, 36, 0, 0, 0, 0, 0, 0, 0, 101, 0, 0, 0, 0, 0, 0, 0, 0, 0,
+    0, 0, 0, 0, 0, 0, 30, 13, 176, 202, 206, 250, 17, 208, 2, 6, 4, 64, 104, 107, 82, 111, 111, 116, 76, 101,
+    118, 101, 108, 67, 111, 110, 116, 97, 105, 110, 101, 114, 78, 97, 109, 101, 100, 86, 97, 114, 105, 97,
+    110, 116, 0, 0, 6, 8, 110, 97, 109, 101, 20, 18, 99, 108, 97, 115, 115, 78, 97, 109, 101, 20, 14, 118, 97,
+    114, 105, 97, 110, 116, 16, 36, 104, 107, 82, 101, 102, 101, 114, 101, 110, 99, 101, 100, 79, 98, 106,
+    101, 99, 116, 4, 40, 104, 107, 82, 111, 111, 116, 76, 101, 118, 101, 108, 67, 111, 110, 116, 97, 105, 110,
+    101, 114, 0, 0, 2, 26, 110, 97, 109, 101, 100, 86, 97, 114, 105, 97, 110, 116, 115, 50, 64, 104, 107, 82,
+    111, 111, 116, 76, 101, 118, 101, 108, 67, 111, 110, 116, 97, 105, 110, 101, 114, 78, 97, 109, 101, 100,
+    86, 97, 114, 105, 97, 110, 116, 4, 14, 104, 107, 97, 66, 111, 110, 101, 0, 0, 4, 8, 110, 97, 109, 101, 20,
+    30, 108, 111, 99, 107, 84, 114, 97, 110, 115, 108, 97, 116, 105, 111, 110, 2, 4, 22, 104, 107, 97, 83,
+    107, 101, 108, 101, 116, 111, 110, 0, 0, 8, 8, 110, 97, 109, 101, 20, 10, 98, 111, 110, 101, 115, 50, 14,
+    104, 107, 97, 66, 111, 110, 101, 26, 112, 97, 114, 101, 110, 116, 73, 110, 100, 105, 99, 101, 115, 36, 26,
+    114, 101, 102, 101, 114, 101, 110, 99, 101, 80, 111, 115, 101, 44, 4, 42, 104, 107, 97, 65, 110, 105, 109,
+    97, 116, 105, 111, 110, 67, 111, 110, 116, 97, 105, 110, 101, 114, 0, 0, 4, 18, 115, 107, 101, 108, 101,
+    116, 111, 110, 115, 48, 22, 104, 107, 97, 83, 107, 101, 108, 101, 116, 111, 110, 16, 98, 105, 110, 100,
+    105, 110, 103, 115, 48, 38, 104, 107, 97, 65, 110, 105, 109, 97, 116, 105, 111, 110, 66, 105, 110, 100,
+    105, 110, 103, 8, 4, 1, 2, 7, 52, 77, 101, 114, 103, 101, 100, 32, 65, 110, 105, 109, 97, 116, 105, 111,
+    110, 32, 67, 111, 110, 116, 97, 105, 110, 101, 114, 42, 104, 107, 97, 65, 110, 105, 109, 97, 116, 105,
+    111, 110, 67, 111, 110, 116, 97, 105, 110, 101, 114, 4, 8, 10, 3, 2, 6, 0, 8, 8, 15, 16, 115, 107, 101,
+    108, 101, 116, 111, 110, 4, 1, 14, 110, 95, 98, 111, 110, 101, 48, 14, 110, 95, 98, 111, 110, 101, 49, 4,
+    8, 3, 0, 4, 0, 0, 0, 0, 0, 0, 128, 62, 0, 0, 0, 63, 0, 0, 64, 63, 0, 0, 128, 63, 0, 0, 160, 63, 0, 0, 192,
+    63, 0, 0, 224, 63, 0, 0, 0, 64, 0, 0, 16, 64, 0, 0, 32, 64, 0, 0, 48, 64, 0, 0, 0, 0, 0, 0, 128, 62, 0, 0,
+    0, 63, 0, 0, 64, 63, 0, 0, 128, 63, 0, 0, 160, 63, 0, 0, 192, 63, 0, 0, 224, 63, 0, 0, 0, 64, 0, 0, 16,
+    64, 0, 0, 32, 64, 0, 0, 48, 64, 14]
+
+/-- `Skeleton::from_existing` (repaired by `fixes/C18-64`, `C18-70..76`) for every byte string: no panic
+site is left on the way (every read, table access and conversion answers `None`), the tag loop
+terminates (`C18Havok.tagStep_consumes`: the fuel `remaining + 1` is never used up), packed integers
+take at most six bytes and struct arrays nest at most `MAX_ARRAY_DEPTH` deep (both structural) -/
+theorem c18_sklb_total (b : Bytes) : ¬ faults (C18Havok.fromExisting b) := (C18Havok.fromExisting_good b).1
+/-- the requests whose size is read from the file (string literals) are made after the bytes were
+found to be present -/
+theorem c18_sklb_alloc (b : Bytes) : (C18Havok.fromExisting b).peak ≤ 64 * b.length + 16777216 :=
+  (C18Havok.fromExisting_good b).2
+/-- the tag loop alone, from any reader state and cursor: never out of fuel -/
+theorem c18_sklb_tagloop_terminates (hs : C18Havok.HSt) (w : Bytes) (s : St) (h : s.rest.length ≤ w.length) :
+    ¬ faults (C18Havok.loopSt C18Havok.tagStep hs w s) :=
+  ((C18Havok.PGood.loopSt hs (fun a => (C18Havok.tagStep_pg a).1) C18Havok.tagStep_consumes) w s h).1.1
+example : ¬ faults (C18Havok.loopSt C18Havok.tagStep (C18Havok.HSt.init 3) [2, 2, 7] ⟨0, [2, 2, 7]⟩) :=
+  c18_sklb_tagloop_terminates _ _ _ (by decide)
+/-- pinned commit: `read_packed_int` on an exhausted reader indexes past the data (`ByteReader::read`),
+and a sixth byte shifts a `u32` by 34 (overflow panic in the profile the tests use) -/
+theorem c18_sklb_unfixed_witness :
+    faults (P.run C18Havok.packedIntUnfixed []) ∧
+    faults (P.run C18Havok.packedIntUnfixed [0x86, 0x80, 0x80, 0x80, 0x80, 0x80, 0x00]) ∧
+    (P.run C18Havok.packedInt [0x86, 0x80, 0x80, 0x80, 0x80, 0x80, 0x00]).isFault = false :=
+  ⟨faults_of_isFault (by decide), faults_of_isFault (by decide), by decide⟩
+/-- non-vacuity: a complete two-bone file is accepted with its two bones; without its last byte (the
+`FileEnd` tag) it is rejected -/
+example : (match (C18Havok.fromExisting sklbTwoBones).out with | .ok (n, _) => n == 2 | _ => false) = true := by
+  decide +kernel
+example : (C18Havok.fromExisting sklbTwoBones.dropLast).isOk = false := by decide +kernel
 
 end Physis.C18
